@@ -18,7 +18,9 @@ CLAIMED = {
             "composition, EOF and error position of frames with bodies 0..8 (real header/read size) and of a scaled instance "
             "whose read size is below the header size, incl. termination under fairness (R1); TLC then enumerates every "
             "schedule of <= 3 calls with every fault position (R2) and each, plus boundary-class schedules for frames up to "
-            "65559 bytes, is executed by the real Socket over a scripted raw socket and judged by TraceSocket.tla (R3).",
+            "65559 bytes, is executed by the real Socket over a scripted raw socket and judged by TraceSocket.tla (R3).  Several "
+            "receive() calls on one Socket (after a complete frame, after a mid-frame socket error; with and without a time-out "
+            "argument) are part of the model (NextRecvCall / FreshCall) and of the generated behaviours (SocketIO_gen2.cfg).",
             "Trusted: TLC, the scripted raw socket (vf/fakesock.py), byte equality of large frames computed by the harness. "
             "Only behaviours up to the explored schedules are covered for the implementation; the model result is exhaustive "
             "within its constants.",
@@ -46,14 +48,18 @@ CLAIMED = {
             "value class, every truncation point of valid encodings, random bytes and the empty buffer must fail exactly as "
             "the class demands: DataError (BufferEmptyError only at a value start), never a foreign exception, a silent value "
             "or a call exceeding the time budget.",
-            "Trusted: as C06; non-termination is detected as 'no return within 5 s'. Zero-width element types are outside the domain.",
+            "Trusted: as C06; non-termination is detected as 'no return within 5 s'.  Unbounded arrays of zero-size elements, "
+            "containers that are not sequences (set, dict, dict views) and every character width of STRINGN are directed cases.",
             "TLA+ reference classification + trace validation of recorded failing codec calls", "5/C08"),
     "C09": ("path",
             "EPath.tla states the padded-EPATH format as a canonical encoder and a STRICT parser (reserved format bits, "
             "non-zero pads, odd lengths, wrong word counts rejected); PathModel.tla shows by exhaustive TLC search that the parser "
             "inverts the encoder on every list of <= 2 segments over boundary values and rejects the malformations (R1).  Every "
             "path emitted by LogicalSegment / PortSegment / DataSegment / PADDED_EPATH.encode / request_path / tag_request_path "
-            "for boundary-crossed inputs is parsed by that parser inside TLC and compared with the intended segment list (R3).",
+            "for boundary-crossed inputs is parsed by that parser inside TLC and compared with the intended segment list (R3).  "
+            "Routes and symbolic scopes as the TARGET receives them in real sessions (Forward Open, Unconnected Send with the "
+            "configured route, module info of other slots and lost replies in between, reconnects, paged program-scope uploads) "
+            "are parsed the same way inside TraceSession.tla (clauses C09:route-meaning, C09:meaning).",
             "Trusted: TLC, the transcription of CIP Vol 1 C-1 into EPath.tla, the intent construction in vf/props/c09.py "
             "(built from the generated structure, never by parsing the tag string with library code).",
             "TLA+ strict EPATH parser model-checked against the canonical encoder + trace validation of emitted paths", "5/C09"),
@@ -103,7 +109,10 @@ CLAIMED = {
             "LogixTarget.tla specifies the Symbol object (paged Get Instance Attribute List) and Template object (attributes, "
             "fragmented read, member records, names) and LogixView!UploadClause what tags / data_types / programs / tasks must "
             "contain; sessions upload generated projects (all symbol categories, sparse ids, nested UDTs, strings and look-alikes) "
-            "under three pagination/fragmentation schedules per project and several firmware generations.",
+            "under three pagination/fragmentation schedules per project and several firmware generations; a refused symbol-list page, "
+            "a structure definition larger than one reply, an empty program, and a second upload after a program download "
+            "(same template id redefined, instance ids renumbered) are part of the families; the codec built for each uploaded "
+            "type must take exactly the structure's bytes.",
             "Trusted: as C01; external access compared only for firmware >= 18.",
             "TLA+ symbol/template object specification; recorded uploads validated against the spec", "5/C05"),
     "C10": ("session",
@@ -111,7 +120,9 @@ CLAIMED = {
             "and receive may fail or find the peer gone) and is model-checked against the contract for every history of 6 calls x 4 "
             "target policies x every fault position incl. termination (R1); TLC prints every behaviour of 3 calls which is "
             "replayed on the real CIPDriver, plus fault-then-reuse and seeded longer histories on CIPDriver/LogixDriver and "
-            "with-blocks (R2); TraceSession guards/obligations C10:* judge every frame and return (R3).",
+            "with-blocks (R2); TraceSession guards/obligations C10:* judge every frame and return (R3).  The environment may change "
+            "the target's admission policy between calls (Lifecycle!PolicyChange, Lifecycle_env.cfg; `_env` events), replies may "
+            "arrive in small TCP segments with the fault inside a frame, and SLCDriver sessions are part of the histories.",
             "Trusted: TLC, EipTarget/TraceSession as the reading of the property, the scripted socket.  One fault per scenario; "
             "timing is not modelled.",
             "TLA+ lifecycle design model checked with TLC; TLC-generated histories replayed; recorded sessions validated", "5/C10"),
@@ -127,7 +138,9 @@ CLAIMED = {
             "for continuing services), non-empty error naming the status, no success from replies too short for their status "
             "words, only library exceptions.  Sessions answer generic messages with status codes x extended sizes x transports, "
             "inject statuses into tag services (incl. mid-transfer fragments, members of multi-service packets) and truncate / "
-            "corrupt / replace replies; the corrupted reply is recomputed by the specification from the logged corruption.",
+            "corrupt / replace replies (cut stream, well-framed truncation with lengths fixed up, bit flip, encapsulation status on a "
+            "complete reply, header-only error) for generic, Logix tag (single, fragmented, multi-service, read-modify-write) and "
+            "SLC calls; the corrupted reply is recomputed by the specification from the logged corruption.",
             "Trusted: as C10; status texts are data exported from the code, the rule is the specification's.",
             "TLA+ reply-classification contract; recorded sessions with injected statuses and corrupted replies validated", "5/C13"),
     "C14": ("session",
@@ -141,14 +154,16 @@ CLAIMED = {
             "IdentityView.tla states the identity layout and the user's view; TraceIdent.tla judges decodes of generated identities "
             "over the full 16-bit vendor / product-type range against the exported tables, every name length, round trip; "
             "TraceSession judges _list_identity / get_module_info / get_plc_info against the target's configured identity.",
-            "Trusted: TLC, IdentityView.tla; vendor/product texts are exported data; discover()'s UDP sockets are out of scope.",
+            "Trusted: TLC, IdentityView.tla; vendor/product texts are the library's literal id tables (data); discover() runs over a "
+            "scripted UDP socket (several devices, damaged datagrams); identities decoded away from offset 0 (after other data, as "
+            "structure members, as array elements) and results that must not change when the device is exchanged are covered.",
             "TLA+ identity layout/view; recorded decodes and sessions validated", "5/C16"),
     "C17": ("session",
             "SeqCount.tla models the counter and every operation kind; its constants (counts drawn per multi-service member, per "
             "fragmented transfer, per SLC request) are MEASURED from the implementation on each run, then TLC proves freshness "
             "for all histories of 6 operations with scaled moduli or yields a counterexample that is replayed at real scale "
             "(R1/R2); sessions advance the real counter to every wrap phase and cross it with every operation kind; the guard "
-            "C17:repeat is evaluated on every connected frame of every session (R3).",
+            "C17:repeat is evaluated on every connected frame of every session (R3), incl. SLC data-file reads and the data-log queue.",
             "Trusted: TLC; the measurement of design parameters through the driver's public generator object.",
             "TLA+ counter model bound to measured parameters, checked with TLC; recorded sessions validated", "5/C17"),
     "C18": ("session",
